@@ -53,7 +53,7 @@ def inst_fragment_flags(cx, iid):
         pq = R.body("PendingPacket::fragment_acknowledged")
         setv = [(ps, show(pa.rvalue_expr(node["rv"]))) for l, node, ps in pa.field_writes(r"arg1\.ack_flags\[.*\]")]
         word = "arg1.ack_flags[cast<usize>(div(arg2,64))]"
-        bit = "shl(1,cast<u64>(rem(arg2,64)))"
+        bit = "shl(1,rem(arg2,64))"  # the normaliser drops the type of a small shift amount
         inst.site(pa, None, "sender ack flag set: %s" % setv)
         if setv not in ([(word, "bitor(%s,%s)" % (word, bit))], [(word, "bitor(%s,%s)" % (bit, word))]):
             inst.violation(pa.path, "ack flag addressing (set)", "acknowledge_fragment records %s; expected word i/64, bit i%%64" % setv)
@@ -86,15 +86,23 @@ def inst_sizes(cx, iid):
         # the slice a fragment is cut from, compared as polynomials (i*M .. (i+1)*M  ==  b .. b + M with b = i*M)
         from rules import poly_str, case_values
         forms = {}
+        LEN = "[T]::len(arg1.data)"
         for loc, kind, node in [(l, k, n) for v in dg.defs.values() for (l, k, n) in v]:
             if kind != "assign":
                 continue
             ex = dg.rvalue_expr(node["rv"])
             if not show(ex).startswith("arg1.data[Range"):
                 continue
-            last, _ = dnf_holds(fa.at(loc), [[r"eq\(arg1\.last_fragment_id,arg2\)"]])
             rng = ex[2][-1][1]  # the index element of the projection: an aggregate Range / RangeFrom
-            forms["last" if last else "inner"] = (rng[1], [poly_str(o) for o in rng[2]])
+            # one slice whose end is chosen by an `if` (b .. if last { len } else { b + M }) is case-split over the
+            # definitions of the end; `b .. len` is `b ..`
+            for alts, rcase in case_values(cx, dg, rng):
+                at = [frozenset(a) | frozenset(x) for a in (fa.at(loc) or [frozenset()]) for x in alts]
+                last, _ = dnf_holds(at, [[r"eq\(arg1\.last_fragment_id,arg2\)"]])
+                kind_, ops = rcase[1], [poly_str(o) for o in rcase[2]]
+                if kind_ == "Range" and len(ops) == 2 and ops[1] == LEN:
+                    kind_, ops = "RangeFrom", ops[:1]
+                forms["last" if last else "inner"] = (kind_, ops)
         inst.site(dg, None, "sender slices: %s" % forms)
         Mv = R.const_int("MAX_FRAGMENT_SIZE")
         if forms.get("last") != ("RangeFrom", ["%d*arg2" % Mv]):
